@@ -48,8 +48,14 @@ Definition cut (t : list Z) (i last : nat) : list Z := firstn last t ++ skipn (c
 
 Definition nxt (t : list Z) (i next : nat) : nat :=
   if (1 <=? i)%nat && (nth (i - 1) t 0 =? SEP) then i else next.
+(* "this byte shows that the current entry is a name": not a separator, and either not a dot
+   or (at least) the third byte of the entry *)
+Definition lcond (c : Z) (nx i : nat) : bool :=
+  negb (c =? SEP) && (negb (c =? DOT) || (nx + 2 <=? i)%nat).
 Definition lst (t : list Z) (i last next : nat) : nat :=
-  if nsd (nth i t 0) then nxt t i next else last.
+  if lcond (nth i t 0) (nxt t i next) i then nxt t i next else last.
+(* an entry that is neither "." nor "..": it has a non-dot byte or at least three bytes *)
+Definition isname (e : elem) : bool := existsb nsd e || (3 <=? length e)%nat.
 
 Lemma nxt_le : forall t i next, (next <= i)%nat -> (nxt t i next <= i)%nat.
 Proof. intros. unfold nxt. destruct ((1 <=? i)%nat && (nth (i - 1) t 0 =? SEP)); lia. Qed.
@@ -167,17 +173,20 @@ Proof.
                  ((1 <=? i)%nat && (nth (i - 1) t 0 =? SEP))).
     { destruct (1 <=? i)%nat eqn:E1; [|reflexivity]. cbn [andb].
       replace (Z.of_nat i - 1) with (Z.of_nat (i - 1)) by lia. rewrite get_txt_nat by lia. reflexivity. }
-    rewrite En. rewrite get_txt_nat by lia. fold (nsd (nth i t 0)).
+    rewrite En. rewrite get_txt_nat by lia.
     set (next1 := nxt t i next) in *.
     set (last1 := lst t i last next) in *.
+    assert (Hn1 : (next1 <= i)%nat) by (apply nxt_le; exact Hn).
     replace (if (1 <=? i)%nat && (nth (i - 1) t 0 =? SEP) then Z.of_nat i else Z.of_nat next) with (Z.of_nat next1)
       by (unfold next1, nxt; destruct ((1 <=? i)%nat && (nth (i - 1) t 0 =? SEP)); reflexivity).
-    replace (if nsd (nth i t 0) then Z.of_nat next1 else Z.of_nat last) with (Z.of_nat last1)
-      by (unfold last1, lst; fold next1; destruct (nsd (nth i t 0)); reflexivity).
+    rewrite (sz_small (Z.of_nat next1 + 2)) by lia.
+    replace (Z.of_nat i >=? Z.of_nat next1 + 2) with (next1 + 2 <=? i)%nat by lia.
+    change (negb (nth i t 0 =? SEP) && (negb (nth i t 0 =? DOT) || (next1 + 2 <=? i)%nat)) with (lcond (nth i t 0) next1 i).
+    replace (if lcond (nth i t 0) next1 i then Z.of_nat next1 else Z.of_nat last) with (Z.of_nat last1)
+      by (unfold last1, lst; fold next1; destruct (lcond (nth i t 0) next1 i); reflexivity).
     replace (Z.of_nat i + 1) with (Z.of_nat (S i)) by lia.
-    assert (Hn1 : (next1 <= i)%nat) by (apply nxt_le; exact Hn).
     apply (IH (S i) t last1 next1 junk t'); [|lia|exact HW|exact H].
-    unfold last1, lst. fold next1. destruct (nsd (nth i t 0)); [right; lia|destruct Hl; [left; assumption|right; lia]].
+    unfold last1, lst. fold next1. destruct (lcond (nth i t 0) next1 i); [right; lia|destruct Hl; [left; assumption|right; lia]].
 Qed.
 
 (* ---- fuel-free reasoning about dd_abs --------------------------------------------------------- *)
@@ -245,7 +254,7 @@ Proof.
     apply IH; [left; reflexivity|lia|]. nia.
   - pose proof (nxt_le t i next Hn) as Hn1.
     apply IH; [|lia|lia].
-    unfold lst. destruct (nsd (nth i t 0)); [right; lia|].
+    unfold lst. destruct (lcond _ _ _); [right; lia|].
     destruct Hl; [left; assumption|right; lia].
 Qed.
 
@@ -311,8 +320,8 @@ Section ScanElem.
 
   Lemma scan_chars : forall e2 e1, e = e1 ++ e2 ->
     ~ (e = DD /\ (last < length T)%nat /\ (2 <= length pre)%nat) ->
-    dd_res (length pre + length e) T (if existsb nsd e then length pre else last) (length pre) r ->
-    dd_res (length pre + length e1) T (if existsb nsd e1 then length pre else last)
+    dd_res (length pre + length e) T (if isname e then length pre else last) (length pre) r ->
+    dd_res (length pre + length e1) T (if isname e1 then length pre else last)
            (match e1 with [] => next | _ => length pre end) r.
   Proof.
     induction e2 as [|c e2' IH]; intros e1 He Hnf Hr.
@@ -349,7 +358,7 @@ Section ScanElem.
                    --- exfalso. apply Hnf. apply andb_true_iff in EL as [L1 L2]. split; [exact He|]. split.
                        +++ unfold T. rewrite He. apply Nat.ltb_lt in L1. rewrite !app_length in *. cbn [length app] in *. lia.
                        +++ rewrite app_length. cbn [length]. apply Nat.leb_le in L2. lia.
-                   --- cbn [existsb nsd] in *. change (nsd DOT) with false. cbn [orb].
+                   --- change (isname [DOT]) with false. cbv iota.
                        apply andb_false_iff in EL as [L1 | L2]; [rewrite L1|rewrite L2, andb_false_r]; reflexivity.
                 ** destruct (Hhd ltac:(discriminate)) as [H0 HS]. cbn [app hd] in *.
                    replace (c2 =? 0) with false by lia. replace (c2 =? SEP) with false by lia. rewrite !andb_false_r. reflexivity.
@@ -379,16 +388,24 @@ Section ScanElem.
             destruct (e1' ++ [y]) eqn:E; [destruct e1'; discriminate|reflexivity]. }
         assert (Ec : nth (length pre + length e1) T 0 = c) by (rewrite Ei, ET; apply nth_at).
         unfold lst. rewrite En, Ec.
+        assert (Elc : lcond c (length pre) (length pre + length e1) = nsd c || (2 <=? length e1)%nat).
+        { unfold lcond, nsd. destruct Hc as [Hc1 _]. replace (c =? SEP) with false by lia. cbn [negb andb].
+          f_equal. lia. }
+        rewrite Elc.
+        assert (Ename : isname (e1 ++ [c]) = (nsd c || (2 <=? length e1)%nat) || isname e1).
+        { unfold isname. rewrite existsb_app, app_length. cbn [existsb length]. rewrite orb_false_r.
+          destruct (existsb nsd e1), (nsd c); cbn [orb]; try reflexivity;
+            destruct (2 <=? length e1)%nat eqn:A1, (3 <=? length e1)%nat eqn:A2, (3 <=? length e1 + 1)%nat eqn:A3;
+            try reflexivity; lia. }
         specialize (IH (e1 ++ [c])). rewrite <- app_assoc in IH. specialize (IH He Hnf Hr).
         rewrite app_length in IH. cbn [length] in IH. replace (length pre + (length e1 + 1))%nat with (S (length pre + length e1)) in IH by lia.
-        rewrite existsb_app in IH. cbn [existsb] in IH. rewrite ?orb_false_r in IH.
+        rewrite Ename in IH.
         destruct (e1 ++ [c]) eqn:E1c; [destruct e1; discriminate|]. cbv beta iota in IH.
-        destruct (existsb nsd e1), (nsd c); cbn [orb] in IH; exact IH.
+        destruct (nsd c || (2 <=? length e1)%nat); cbn [orb] in IH; exact IH.
   Qed.
 End ScanElem.
 
 (* ---- skipping / collapsing whole fields ------------------------------------------------------------ *)
-Definition isname (e : elem) : bool := existsb nsd e.
 
 Lemma last_not_sep : forall e, sepfree e -> e <> [] -> exists e' y, e = e' ++ [y] /\ y <> SEP.
 Proof.
@@ -421,8 +438,7 @@ Proof.
   - assert (En : nxt (pre ++ e ++ SEP :: q) (length pre + length e) (length pre) = length pre).
     { unfold nxt. rewrite Ei, ET, nth_prev1. replace (y =? SEP) with false by lia. rewrite andb_false_r. reflexivity. }
     assert (Ec : nth (length pre + length e) (pre ++ e ++ SEP :: q) 0 = SEP) by (rewrite Ei, ET; apply nth_at).
-    unfold lst. rewrite En, Ec.
-    change (nsd SEP) with false. cbv iota.
+    unfold lst, lcond. rewrite En, Ec. rewrite Z.eqb_refl. cbn [negb andb].
     specialize (Hr (length pre)).
     replace (length (pre ++ e ++ [SEP])) with (S (length pre + length e)) in Hr
       by (rewrite !app_length; cbn [length]; lia).
@@ -460,7 +476,11 @@ Proof.
   - destruct (fire _ _ _) eqn:Ef; [|reflexivity]. apply fire_needs in Ef as (_ & _ & _ & Ef & _).
     rewrite ET0 in Ef. rewrite nth_prev1 in Ef. discriminate.
   - assert (E0 : nth (length (p' ++ [SEP])) T 0 = DOT) by (rewrite ET0; apply nth_at).
-    unfold lst. rewrite E0. change (nsd DOT) with false. cbv iota.
+    assert (En0 : nxt T (length (p' ++ [SEP])) next = length (p' ++ [SEP])).
+    { unfold nxt. rewrite ET0, nth_prev1, Z.eqb_refl, andb_true_r.
+      replace (1 <=? length (p' ++ [SEP]))%nat with true by (rewrite app_length; cbn [length]; lia). reflexivity. }
+    unfold lst, lcond. rewrite En0, E0. rewrite Z.eqb_refl.
+    replace (length (p' ++ [SEP]) + 2 <=? length (p' ++ [SEP]))%nat with false by lia. cbn [negb orb]. rewrite andb_false_r.
     (* second dot: collapse *)
     assert (Ei : S (length (p' ++ [SEP])) = length (p' ++ [SEP; DOT])) by (rewrite !app_length; cbn [length]; lia).
     rewrite Ei. apply dd_res_fire.
@@ -626,13 +646,16 @@ Proof.
   - rewrite track_app, A2. reflexivity.
 Qed.
 
-Lemma scan_nocancel : forall k D N tl, (k = 0 \/ k = 1) -> allDD D -> allnm N -> (tl = [] \/ tl = [[]]) ->
+(* what may follow the kept fields: nothing, a trailing separator (empty last field), or a last "." *)
+Definition tlok (tl : list elem) : Prop := tl = [] \/ tl = [[]] \/ tl = [[DOT]].
+
+Lemma scan_nocancel : forall k D N tl, (k = 0 \/ k = 1) -> allDD D -> allnm N -> tlok tl ->
   dd_res (length (root_acc k)) (TX k (D ++ N ++ tl)) (length (TX k (D ++ N ++ tl))) 0 (TX k (D ++ N ++ tl)).
 Proof.
   intros k D N tl Hk HD HN Htl.
   assert (Hroot : root_acc k = [] \/ exists p', root_acc k = p' ++ [SEP]).
   { destruct Hk as [-> | ->]; [left; reflexivity|right; exists []; reflexivity]. }
-  destruct Htl as [-> | ->].
+  destruct Htl as [-> | [-> | ->]].
   - rewrite app_nil_r. destruct (D ++ N) as [|a0 l0] eqn:EX.
     + apply dd_res_exit. unfold TX. cbn. rewrite app_nil_r. lia.
     + destruct (exists_last (l := a0 :: l0) ltac:(discriminate)) as (X' & e & EX'). rewrite EX' in *. clear EX' a0 l0.
@@ -660,6 +683,23 @@ Proof.
     apply (skip_block (D ++ N) (root_acc k) [] T _ 0%nat T ET); auto.
     + apply Forall_app. split; [apply allDD_gf0|apply allnm_gf0]; assumption.
     + intros nx _. apply dd_res_exit. rewrite ET, !app_length. cbn [length]. lia.
+  - (* a last "." field: scanned like a field that is not ".." *)
+    set (T := TX k (D ++ N ++ [[DOT]])).
+    assert (ET : T = root_acc k ++ body (D ++ N) ++ [DOT]).
+    { unfold T, TX. rewrite app_assoc, join_snoc. reflexivity. }
+    destruct (nofire_dn (length T) (length (root_acc k)) D N HD HN) as [NF TR].
+    apply (skip_block (D ++ N) (root_acc k) [DOT] T _ 0%nat T ET); auto.
+    + apply Forall_app. split; [apply allDD_gf0|apply allnm_gf0]; assumption.
+    + intros nx Hnx.
+      replace (length (root_acc k) + length (body (D ++ N)))%nat with (length (root_acc k ++ body (D ++ N)))
+        by apply app_length.
+      assert (ET2 : T = (root_acc k ++ body (D ++ N)) ++ [DOT]) by (rewrite ET, <- app_assoc; reflexivity).
+      rewrite ET2 at 1 3. apply skip_last; auto.
+      * repeat constructor; discriminate.
+      * repeat constructor; discriminate.
+      * discriminate.
+      * apply pre_body; exact Hk.
+      * intros (Ed & _). discriminate.
 Qed.
 
 Lemma firstn_exact : forall (A Bx : list Z), firstn (length A) (A ++ Bx) = A.
@@ -721,7 +761,7 @@ Qed.
 Lemma dd_res_root : forall q L r, dd_res 1 (SEP :: q) L 0 r -> dd_res 0 (SEP :: q) L 0 r.
 Proof.
   intros q L r H. apply dd_res_adv; [cbn; lia|apply fire_small; lia|].
-  unfold lst, nxt. cbn [nth Nat.leb andb]. change (nsd SEP) with false. cbv iota. exact H.
+  unfold lst, lcond, nxt. cbn [nth Nat.leb andb]. rewrite Z.eqb_refl. cbn [negb andb]. exact H.
 Qed.
 
 (* ---- the spec machine is invariant under the collapse ------------------------------------------------ *)
@@ -747,7 +787,7 @@ Proof.
   - cbn [fold_left]. rewrite (step_trail_irrelevant R o true t). reflexivity.
 Qed.
 
-(* ---- plain field lists: every field is ".." or a name -------------------------------------------------- *)
+(* ---- field lists in which every field is ".." or a name -------------------------------------------------- *)
 Definition fld (e : elem) : Prop := e = DD \/ nm e.
 
 Lemma split_plain : forall H, Forall fld H ->
@@ -781,8 +821,8 @@ Proof.
 Qed.
 
 Lemma pass2_plain : forall k, (k = 0 \/ k = 1) -> forall n H tl,
-  (length H <= n)%nat -> Forall fld H -> (tl = [] \/ tl = [[]]) ->
-  exists D N tl', allDD D /\ allnm N /\ (tl' = [] \/ tl' = [[]]) /\
+  (length H <= n)%nat -> Forall fld H -> tlok tl ->
+  exists D N tl', allDD D /\ allnm N /\ tlok tl' /\
     dd_res (length (root_acc k)) (TX k (H ++ tl)) (length (TX k (H ++ tl))) 0 (TX k (D ++ N ++ tl')) /\
     (forall R, normal_elems R (H ++ tl) = normal_elems R (D ++ N ++ tl')) /\
     (forall P : elem -> Prop, Forall P H -> Forall P (D ++ N)).
@@ -805,16 +845,17 @@ Proof.
       assert (EF : ((D ++ N' ++ [n0]) ++ DD :: C) ++ tl = (D ++ N' ++ [n0]) ++ DD :: Y).
       { unfold Y. rewrite <- !app_assoc. reflexivity. }
       assert (Hshort : exists H' tl'', (D ++ N') ++ match Y with [] => [[]] | _ => Y end = H' ++ tl'' /\
-                        Forall fld H' /\ (tl'' = [] \/ tl'' = [[]]) /\ (length H' <= n)%nat /\
+                        Forall fld H' /\ tlok tl'' /\ (length H' <= n)%nat /\
                         (forall P : elem -> Prop, Forall P ((D ++ N' ++ [n0]) ++ DD :: C) -> Forall P H')).
       { repeat (rewrite ?app_length in Hlen; cbn [length] in Hlen).
         assert (Sub : forall P : elem -> Prop, Forall P ((D ++ N' ++ [n0]) ++ DD :: C) -> Forall P (D ++ N') /\ Forall P C).
         { intros P HP. rewrite !Forall_app in HP. destruct HP as [[P1 [P2 _]] P3]. rewrite Forall_app.
           inversion P3; subst. repeat split; assumption. }
         destruct C as [|c C'].
-        - destruct Htl as [-> | ->]; unfold Y; cbn [app].
-          + exists (D ++ N'), [[]]. repeat split; auto; [rewrite app_length; lia|intros P HP; apply (Sub P HP)].
-          + exists (D ++ N'), [[]]. repeat split; auto; [rewrite app_length; lia|intros P HP; apply (Sub P HP)].
+        - destruct Htl as [-> | [-> | ->]]; unfold Y; cbn [app].
+          + exists (D ++ N'), [[]]. repeat split; auto; [right; left; reflexivity|rewrite app_length; lia|intros P HP; apply (Sub P HP)].
+          + exists (D ++ N'), [[]]. repeat split; auto; [right; left; reflexivity|rewrite app_length; lia|intros P HP; apply (Sub P HP)].
+          + exists (D ++ N'), [[DOT]]. repeat split; auto; [right; right; reflexivity|rewrite app_length; lia|intros P HP; apply (Sub P HP)].
         - exists ((D ++ N') ++ c :: C'), tl. unfold Y. cbn [app]. repeat split; auto.
           + rewrite <- !app_assoc. reflexivity.
           + apply Forall_app. split; assumption.
